@@ -14,13 +14,17 @@ It provides Function classes.
 import regex
 import functools
 from . import Token
-from .parenthesis import Parenthesis
+from .parenthesis import Parenthesis, _follows_operand
+from ..errors import TokenError
 
 
 class Function(Token):
     _re = regex.compile(r'^\s*@?(?P<name>[A-Z_][\w\.]*)\(\s*', regex.IGNORECASE)
 
-    def ast(self, tokens, stack, builder, check_n=lambda *args: True):
+    def ast(self, tokens, stack, builder, check_n=lambda *args: True,
+            check_operand=True):
+        if check_operand and _follows_operand(tokens):
+            raise TokenError()  # Two adjacent operands.
         super(Function, self).ast(tokens, stack, builder)
         stack.append(self)
         t = Parenthesis('(')
@@ -53,9 +57,11 @@ class Array(Function):
     _re = regex.compile(r'^\s*(?P<name>(?P<start>{)|(?P<end>})|(?P<sep>;))\s*')
 
     @staticmethod
-    def _open(tokens, stack, builder, check_n):
+    def _open(tokens, stack, builder, check_n, check_operand=True):
         n = len(stack)
-        Function('ARRAY(').ast(tokens, stack, builder, check_n=check_n)
+        Function('ARRAY(').ast(
+            tokens, stack, builder, check_n=check_n, check_operand=check_operand
+        )
         for t in stack[n:]:
             t.attr['is_array'] = True
 
@@ -75,6 +81,6 @@ class Array(Function):
             token = self._close(tokens, stack, builder)
             if self.has_sep:
                 check_n = functools.partial(_check_tkn_n_args, token.get_n_args)
-                self._open(tokens, stack, builder, check_n)
+                self._open(tokens, stack, builder, check_n, False)
             else:
                 self._close(tokens, stack, builder)
